@@ -8,12 +8,15 @@
      - always parses / omits: a value is emitted iff it is representable (both directions);
      - layout of one binding (single line, continuation, too long);
      - Markdown keeps every binding line verbatim (4-space code block), for every text config_str can emit.
-   NOT proved in Coq (C06_roundtrip is only validated, on the real parser and the real pprint/repr):
-     parse(config_str()) restores every representable binding and re-serialises to the identical text.
-     That clause is decided by the independent predicates of harness/props/c06.py on the implementation
-     and by the correspondence engine 'serial'. *)
+     - re-serialisation: the store that a parse of the text yields is determined (per emitted section
+       exactly the emitted bindings, the emitted imports); serialising THAT store gives the identical text
+       (C06_roundtrip_text), except for sections printing only "# None." (C06_none_section_refuted: the
+       recorded finding F18 — the hypothesis of the theorem is exactly its complement).
+   NOT proved in Coq (validated on the real parser and the real pprint/repr by the independent predicates
+   of harness/props/c06.py): that parsing the emitted text does yield that store, i.e. that each emitted
+   value text evaluates back to an equal value of the same type. *)
 From Coq Require Import List String ZArith Bool Arith Ascii Sorting.Permutation Sorting.Sorted.
-From GinV Require Import Lib.Out Lib.PyStr Model.SelectorMap Model.Serial Proofs.SerialProofs.
+From GinV Require Import Lib.Out Lib.PyStr Model.SelectorMap Model.Serial Proofs.SerialProofs Proofs.SerialProofs2.
 Import ListNotations.
 Open Scope string_scope.
 Open Scope list_scope.
@@ -89,6 +92,31 @@ Theorem C06_markdown_arbitrary_lines_refuted :
   map (fun l => "    " ^^ l) (filter (fun l => negb (String.prefix "#" l)) ["#     x"]).
 Proof. vm_compute. discriminate. Qed.
 
+(* ---- re-serialising what the text restores ---- *)
+Theorem C06_roundtrip_text : forall registry imports entries maxlen indent,
+  List.length imports + 3 <= 10 ^ 20 -> NoDup (map (fun e => (e_scope e, e_sel e)) entries) ->
+  (forall e, In e (other_entries entries) -> section_params e <> []) ->
+  config_lines registry (sorted_imports (import_manager imports)) (restored entries) maxlen indent =
+  config_lines registry imports entries maxlen indent.
+Proof. exact SerialProofs2.C06_roundtrip_text. Qed.
+Theorem C06_restored_fixpoint : forall entries,
+  NoDup (map (fun e => (e_scope e, e_sel e)) entries) -> restored (restored entries) = restored entries.
+Proof. exact restored_fixpoint. Qed.
+(* F18: a section that prints only "# None." is not restored, so the second text lacks it *)
+Theorem C06_none_section_refuted :
+  config_lines ["f"] [] (restored f18_entries) 80 4 <> config_lines ["f"] [] f18_entries 80 4.
+Proof. exact SerialProofs2.C06_none_section_refuted. Qed.
+Theorem C06_import_header_idempotent : forall imports, List.length imports + 3 <= 10 ^ 20 ->
+  let imps' := sorted_imports (import_manager imports) in
+  map import_format (sorted_imports (import_manager imps')) = map import_format imps'.
+Proof. exact C06_import_lines_idempotent. Qed.
+(* the sort is stable (Python's sorted): equal keys keep their input order *)
+Theorem C06_sort_is_stable : forall A K (key : A -> K) ltb (keqb : K -> K -> bool),
+  (forall a b, keqb a b = true -> a = b) -> (forall a, ltb a a = false) ->
+  forall k (l : list A),
+  filter (fun y => keqb (key y) k) (sort_stable key ltb l) = filter (fun y => keqb (key y) k) l.
+Proof. exact sort_stable_is_stable. Qed.
+
 (* ---- imports of the header ---- *)
 Theorem C06_import_modules_unique : forall imports, NoDup (map i_module (import_manager imports)).
 Proof. exact import_manager_unique_modules. Qed.
@@ -116,3 +144,8 @@ Print Assumptions C06_markdown_arbitrary_lines_refuted.
 Print Assumptions C06_import_modules_unique.
 Print Assumptions C06_import_modules_complete.
 Print Assumptions C06_import_names_unique.
+Print Assumptions C06_roundtrip_text.
+Print Assumptions C06_restored_fixpoint.
+Print Assumptions C06_none_section_refuted.
+Print Assumptions C06_import_header_idempotent.
+Print Assumptions C06_sort_is_stable.
